@@ -3,5 +3,6 @@ CONSTANT Dev = "mul_any_operands"
 INVARIANT FusionSound
 INVARIANT LpNormSound
 INVARIANT MeanSound
+INVARIANT NormLaws
 INVARIANT DigitizeLaws
 CHECK_DEADLOCK FALSE
